@@ -45,5 +45,16 @@ PROPS = {
     "C12": _p("resolve-once, no stranding, no self-deadlock, no panic, pool safety over all event lists of the client model + lockstep correspondence"),
 }
 
+from checklib.oracles import CLIENT_ORACLES
+
+for _pid in PROPS:
+    if _pid in CLIENT_ORACLES:
+        PROPS[_pid]["impl_oracle"] = {"client": CLIENT_ORACLES[_pid]}
+
+PROPS["C12"]["freerun"] = {"rounds_quick": 400, "rounds_thorough": 20000, "race": False, "watch": ["stranded", "wrongerr"],
+                           "meaning": "a caller still waiting 20 s after the connection was closed; a caller handed a recovered panic or another request's failure"}
+PROPS["C02"]["freerun"] = {"rounds_quick": 400, "rounds_thorough": 20000, "race": False, "watch": ["mismatch", "wrongerr"],
+                           "meaning": "a response that is not this caller's; a caller handed a recovered panic or another request's failure"}
+
 # properties already configured in conf_server.py (suites ["server"]) whose client half runs on this suite too
-CLIENT_ALSO = ["C14", "C18", "C20"]
+CLIENT_ALSO = ["C14", "C18", "C20", "C19"]
